@@ -1019,6 +1019,7 @@ def rule_type_length(prog, fixture=False):
                    "given to cout.write is body_end - body_start, or the size of a buffer that holds one byte per "
                    "input byte (CR is replaced, never dropped or doubled; nothing depends on the previous byte)",
                    floor=0 if fixture else 1)
+    ONE_TO_ONE = {"std::replace_copy", "std::copy", "std::transform", "std::replace_copy_if"}
     for fn in prog.functions.values():
         if not (fn.relfile() == "dfs/cmd_type.cc" or fixture):
             continue
@@ -1027,34 +1028,8 @@ def rule_type_length(prog, fixture=False):
             continue
         b0, b1 = ptrs[0]["d"], ptrs[1]["d"]
 
-        def is_span(e, depth=0):
-            e = strip_all(e)
-            for _ in range(3):
-                if e is not None and e.get("k") in ("CXXStaticCastExpr", "CStyleCastExpr", "CXXFunctionalCastExpr") and e.get("c"):
-                    e = strip_all(e["c"][0])
-            if e is not None and e.get("k") == "DeclRefExpr" and e.get("dk") == "Var" and depth < 2 and \
-                    not any(d_ == e["d"] for x in fn.walk() for d_, _ in flow.written_decls(x) if x.get("k") not in ("VarDecl", "DeclStmt")):
-                for v in fn.walk():
-                    if v.get("k") == "VarDecl" and v.get("d") == e["d"] and v.get("c"):
-                        return is_span(v["c"][0], depth + 1)
-            return e is not None and e.get("k") == "BinaryOperator" and e.get("op") == "-" and \
-                (strip_all(e["c"][0]) or {}).get("d") == b1 and (strip_all(e["c"][1]) or {}).get("d") == b0
-        k = 0
-        for n in fn.walk():
-            if n.get("k") != "CXXMemberCallExpr" or (strip(n["c"][0]) or {}).get("n") != "write" or len(n["c"]) < 3:
-                continue
-            k += 1
-            key = "%s::%s::write#%d" % (fn.relfile(), fn.qn, k)
-            size = strip_all(n["c"][2])
-            if is_span(size):
-                r.add(key, fn.loc(n), True, "count = body_end - body_start")
-                continue
-            vec = None
-            if size is not None and size.get("k") == "CXXMemberCallExpr" and (strip(size["c"][0]) or {}).get("n") == "size":
-                vec = strip_all((strip(size["c"][0]) or {}).get("c", [None])[0])
-            if vec is None or vec.get("k") != "DeclRefExpr":
-                r.undecided.append("%s: cannot relate the count `%s` to the piece handed in" % (fn.loc(n), show(size)[:40]))
-                continue
+        def vec_problem(vec):
+            """None if the vector holds one byte per input byte; else (kind, text): kind "bad" or "unknown"."""
             vd = [v for v in fn.walk() if v.get("k") == "VarDecl" and v.get("d") == vec["d"]]
             init = strip_all(vd[0]["c"][0]) if vd and vd[0].get("c") else None
             ranged = init is not None and init.get("k") == "CXXConstructExpr" and len(init.get("c", [])) >= 2 and \
@@ -1062,12 +1037,18 @@ def rule_type_length(prog, fixture=False):
             muts = [x for x in fn.walk() if x.get("k") == "CXXMemberCallExpr" and (strip(x["c"][0]) or {}).get("n") in flow.MUTATORS
                     and (strip_all((strip(x["c"][0]) or {}).get("c", [None])[0]) or {}).get("d") == vec["d"]]
             sizing = [x for x in muts if (strip(x["c"][0]) or {}).get("n") not in ("reserve",)]
-            if ranged and not sizing:
-                r.add(key, fn.loc(n), True, "buffer copied from [body_start, body_end), elements replaced in place")
-                continue
+            algos = [x for x in fn.walk() if x.get("k") == "CallExpr" and notpl(x.get("q") or "") in ONE_TO_ONE and
+                     any(y.get("k") == "CallExpr" and notpl(y.get("q") or "") == "std::back_inserter" and
+                         any(z.get("k") == "DeclRefExpr" and z.get("d") == vec["d"] for z in walk(y)) for y in walk(x))]
+            if ranged and not sizing and not algos:
+                return None
+            if not ranged and not sizing and len(algos) == 1:
+                a = call_args(algos[0])
+                if len(a) >= 2 and (strip_all(a[0]) or {}).get("d") == b0 and (strip_all(a[1]) or {}).get("d") == b1:
+                    return None
+                return ("unknown", "the algorithm that fills `%s` does not run over [body_start, body_end)" % vec.get("n"))
             pushes = [x for x in sizing if (strip(x["c"][0]) or {}).get("n") in ("push_back", "emplace_back")]
-            problem = None
-            if not ranged and pushes and len(pushes) == len(sizing):
+            if not ranged and not algos and pushes and len(pushes) == len(sizing):
                 for pb in pushes:
                     loop = None
                     for a in fn.ancestors(pb):
@@ -1075,23 +1056,59 @@ def rule_type_length(prog, fixture=False):
                             loop = a
                             break
                     if loop is None:
-                        problem = "%s: a byte is appended outside the loop over the piece" % fn.loc(pb)
-                        break
+                        return ("bad", "%s: a byte is appended outside the loop over the piece" % fn.loc(pb))
                     body = loop["c"][loop["parts"]["body"]]
                     cond_anc = [a for a in fn.ancestors(pb) if any(y is a for y in walk(body)) and
                                 a.get("k") in ("IfStmt", "SwitchStmt", "ConditionalOperator")]
                     skips = [x for x in walk(body) if x.get("k") in ("ContinueStmt", "BreakStmt", "ReturnStmt")]
                     if cond_anc or skips or len([q_ for q_ in pushes if any(y is q_ for y in walk(body))]) != 1:
-                        problem = "%s: the loop that builds the output does not append exactly one byte per input byte " \
-                                  "(a conditional append or a `continue`): the text shown is shorter or longer than the file" % fn.loc(loop)
-                        break
-                if problem is None:
-                    r.add(key, fn.loc(n), True, "one byte appended per input byte")
-                    continue
-            elif problem is None:
-                r.undecided.append("%s: cannot tell how many bytes `%s` holds" % (fn.loc(n), vec.get("n")))
+                        return ("bad", "%s: the loop that builds the output does not append exactly one byte per input byte "
+                                "(a conditional append or a `continue`): the text shown is shorter or longer than the file" % fn.loc(loop))
+                return None
+            return ("unknown", "cannot tell how many bytes `%s` holds" % vec.get("n"))
+
+        def count_problem(e, depth=0):
+            e = strip_all(e)
+            for _ in range(3):
+                if e is not None and e.get("k") in ("CXXStaticCastExpr", "CStyleCastExpr", "CXXFunctionalCastExpr") and e.get("c"):
+                    e = strip_all(e["c"][0])
+            if e is None:
+                return ("unknown", "no count")
+            if e.get("k") == "BinaryOperator" and e.get("op") == "-" and \
+                    (strip_all(e["c"][0]) or {}).get("d") == b1 and (strip_all(e["c"][1]) or {}).get("d") == b0:
+                return None
+            if e.get("k") == "CXXMemberCallExpr" and (strip(e["c"][0]) or {}).get("n") == "size":
+                vec = strip_all((strip(e["c"][0]) or {}).get("c", [None])[0])
+                if vec is not None and vec.get("k") == "DeclRefExpr":
+                    return vec_problem(vec)
+            if e.get("k") == "DeclRefExpr" and e.get("dk") == "Var" and depth < 3:
+                defs = [v["c"][0] for v in fn.walk() if v.get("k") == "VarDecl" and v.get("d") == e["d"] and v.get("c")]
+                for x in fn.walk():
+                    if x.get("k") == "BinaryOperator" and x.get("op") == "=" and (strip_all(x["c"][0]) or {}).get("d") == e["d"]:
+                        defs.append(x["c"][1])
+                    elif x.get("k") in ("CompoundAssignOperator", "UnaryOperator") and x.get("op") in flow.ASSIGN_OPS | {"++", "--"} and \
+                            (strip_all(x["c"][0]) or {}).get("d") == e["d"]:
+                        return ("unknown", "`%s` is adjusted in place" % e.get("n"))
+                worst = None
+                for d_ in defs:
+                    p_ = count_problem(d_, depth + 1)
+                    if p_ is not None and (worst is None or p_[0] == "bad"):
+                        worst = p_
+                return worst if defs else ("unknown", "no definition of `%s`" % e.get("n"))
+            return ("unknown", "cannot relate the count `%s` to the piece handed in" % show(e)[:40])
+        k = 0
+        for n in fn.walk():
+            if n.get("k") != "CXXMemberCallExpr" or (strip(n["c"][0]) or {}).get("n") != "write" or len(n["c"]) < 3:
                 continue
-            r.add(key, fn.loc(n), False, problem)
+            k += 1
+            key = "%s::%s::write#%d" % (fn.relfile(), fn.qn, k)
+            pr = count_problem(n["c"][2])
+            if pr is None:
+                r.add(key, fn.loc(n), True, "one byte written per byte handed in")
+            elif pr[0] == "bad":
+                r.add(key, fn.loc(n), False, pr[1])
+            else:
+                r.undecided.append("%s: %s" % (fn.loc(n), pr[1]))
     return r
 
 
